@@ -25,6 +25,8 @@ def same(a, b, tol=1e-9):
     if isinstance(a, (int, float)) and isinstance(b, (int, float)) and not isinstance(a, bool) and not isinstance(b, bool):
         if a != a and b != b:
             return True
+        if a == b:
+            return True
         return abs(a - b) <= tol * max(1.0, abs(a), abs(b))
     if isinstance(a, list) and isinstance(b, list):
         return len(a) == len(b) and all(same(x, y, tol) for x, y in zip(a, b))
